@@ -238,6 +238,11 @@ func runC09(seed int64, tier string, outDir string) *result {
 
 	for hi := 0; hi < nhist; hi++ {
 		names := [][]string{{"A", "B"}, {"A", "B", "C"}, {"A", "B", "A"}, {"A", "B", "C", "D"}, {"A"}, {"A", "A"}}[rng.Intn(6)]
+		c11LinkKey = nil
+		if hi%4 == 3 { // logs whose blocks carry encrypted links: every loader must hand the log's IO to the fetcher
+			c11LinkKey = []byte("0123456789abcdef0123456789abcdef")
+			stats["histories_with_encrypted_links"]++
+		}
 		d := c11NewDag("history", names)
 		d.name = fmt.Sprintf("st_h%d", hi)
 		dags = append(dags, d)
@@ -297,6 +302,7 @@ func runC09(seed int64, tier string, outDir string) *result {
 			}
 		}
 	}
+	c11LinkKey = nil
 	for _, d := range dags {
 		canon.addDag(d)
 	}
